@@ -131,3 +131,35 @@ Proof.
   intros base d pn id owner ot op H. rewrite loading_preserves_decisions_l in H.
   now apply decision_sound_l.
 Qed.
+
+(* ------------------------------------------------------------------ the store fed by the monitor *)
+
+Lemma allowed_lookup_only : forall P P' pn id owner ot op,
+  slookup pn P = slookup pn P' ->
+  allowed_by_policy P pn id owner ot op = allowed_by_policy P' pn id owner ot op.
+Proof.
+  intros P P' pn id owner ot op E. unfold allowed_by_policy.
+  assert (S : same_decisions (slookup pn P) (slookup pn P')) by (rewrite E; apply same_decisions_refl).
+  destruct (id_groups id) as [gs|].
+  - induction gs as [|g t IH]; simpl; [reflexivity|]. rewrite IH. f_equal. now apply is_allowed_same.
+  - now apply is_allowed_same.
+Qed.
+
+(* a missing policy - also one that no file on disk defines any more - grants to nobody; whatever the engine allows
+   under a store all of whose entries come from the built-ins or from documents on disk is granted by the built-in
+   policy or by one of those documents *)
+Lemma store_from_disk_sound_l : forall builtin docs store pn id owner ot op,
+  from_disk builtin docs store ->
+  allowed_by_policy store pn id owner ot op = true ->
+  granted_spec builtin pn id owner ot op \/
+  exists d, In d docs /\ granted_spec (document_meaning d) pn id owner ot op.
+Proof.
+  intros builtin docs store pn id owner ot op Hfd H.
+  destruct (slookup pn store) as [b|] eqn:Eb.
+  - destruct (Hfd _ _ Eb) as [Hb|[d [Hin Hd]]].
+    + left. apply decision_sound_l. rewrite <- H. apply allowed_lookup_only. congruence.
+    + right. exists d. split; [exact Hin|]. apply decision_sound_l.
+      pose proof (loading_preserves_decisions_l [] d pn id owner ot op) as L. unfold overlay in L.
+      rewrite !app_nil_r in L. rewrite <- L, <- H. apply allowed_lookup_only. congruence.
+  - rewrite (deny_policy_missing _ _ id owner ot op Eb) in H. discriminate.
+Qed.
